@@ -32,6 +32,8 @@ pub enum WindowSize {
     Small,
     /// Small mostly, sometimes up to 80x80, sometimes the full framebuffer
     Mixed,
+    /// both edges mostly 52..=170 (rows longer than the batching capacities fit)
+    Wide,
 }
 
 /// (w, h, ox, oy) accepted by init for a framebuffer (fw, fh); asymmetric margins favoured
@@ -49,6 +51,17 @@ pub fn window(fw: u16, fh: u16, ws: WindowSize, cap: u16) -> BoxedStrategy<(u16,
             ]
             .prop_map(|v| v as u16)
             .boxed(),
+            WindowSize::Wide => {
+                let lo = 52u32.min(full);
+                let hi = 170u32.min(full).max(lo);
+                prop_oneof![
+                    8 => lo..=hi,
+                    1 => 1..=small,
+                    1 => Just(full),
+                ]
+                .prop_map(|v| v as u16)
+                .boxed()
+            }
             WindowSize::Mixed => prop_oneof![
                 10 => 1..=small,
                 1 => Just(1u32),
@@ -180,7 +193,7 @@ pub fn config(menu: ConfigMenu) -> BoxedStrategy<Config> {
             (
                 Just(model),
                 tstrat,
-                window(fw, fh, if t.pin_level() { WindowSize::Small } else { ws }, cap),
+                window(fw, fh, if t.pin_level() && ws != WindowSize::Wide { WindowSize::Small } else { ws }, cap),
                 orient(),
                 any::<[bool; 4]>(),
             )
